@@ -9,7 +9,8 @@ EXPLANATION = ("(R1) boundary gating: in truncate, remove, insert, insert_str, s
                "bytes, fully validated first chunk, boundary-gated split, decoder-validated prefix) — a new unclassified site is a violation; (R3) decoder tables: the "
                "UTF8_CHAR_WIDTH static (evaluated by rustc) equals the RFC 3629 width table, the lossy decoder's match arms (from HIR patterns) accept exactly the second-byte ranges "
                "of Unicode Table 3-7, each further byte is checked as a continuation byte, and the replacement character is pushed exactly when the broken part is non-empty; "
-               "(O4) byte-shift formulas of pop / remove / insert_bytes / from_str_in equal std's (source, destination, count, new length).")
+               "(O4) byte-shift formulas of pop / remove / insert_bytes / from_str_in equal std's (source, destination, count, new length)."
+               ' (R3 also) cursor discipline of the lossy decoder; (O4 34 clauses incl. retain loop, push/insert compositions, from_utf16_in / from_utf8 / into_bump_str); (R6) full-text forwarding of Hash/Display/Debug (to the str impl), comparison, Index, Borrow/AsRef; (R7) compositions: Clone, Extend, fmt::Write, Add, serde, from_iter_in; (R8) the format! macro analysed on its expansion.')
 RULE = "rule instance = (rule, method/site/table row); distinct by (rule, site)"
 
 SELF = ('param', 1)
